@@ -16,8 +16,24 @@ pub enum RT {
     Prod(Rc<RT>, Rc<RT>),
 }
 
+impl RT {
+    /// Some(n) if the type is the word type 2^(2^n)
+    pub fn as_word(&self) -> Option<usize> {
+        match self {
+            RT::Sum(a, b) if **a == RT::Unit && **b == RT::Unit => Some(0),
+            RT::Prod(a, b) if Rc::ptr_eq(a, b) || a == b => a.as_word().map(|n| n + 1),
+            _ => None,
+        }
+    }
+}
+
 impl fmt::Display for RT {
     fn fmt(&self, f: &mut fmt::Formatter) -> fmt::Result {
+        if let Some(n) = self.as_word() {
+            if n > 0 {
+                return write!(f, "2^{}", 1u64 << n);
+            }
+        }
         match self {
             RT::Unit => f.write_str("1"),
             RT::Sum(a, b) => {
